@@ -148,6 +148,29 @@ def pair_space(tier, phase):
     return states
 
 
+def range_space(tier, phase):
+    """C01 only (no reference model involved): the pair space plus occurrences that list a note more than once -
+    'duplicated' annotations of the property's quantifier.  The set-based definitions still bound every score by 1
+    (|P n Q| counts distinct notes, the normalisers count listed notes)."""
+    o = occurrences(phase)
+    a = o["A"]
+    dup = (a[0],) + tuple(a)                       # first note listed twice
+    n3 = (a[0],) * 3                               # one note listed three times
+    dmid = tuple(a[:2]) + (a[1],) + tuple(a[2:])   # a middle note listed twice
+    dpats = [(dup,), (n3,), (dmid,), (dup, a), (n3, o["N1"]), (a, dup)]
+    dsides = lists_over(dpats, 2)
+    others = list(EMPTY) + lists_over([(a,), (o["N1"],), (o["T"],), (a, o["T"]), (o["SUB"],)], 2)
+    states = pair_space(tier, phase)
+    seen = set(states)
+    for x in dsides:
+        for y in dsides + others:
+            for st in ((x, y), (y, x)):
+                if st not in seen:
+                    seen.add(st)
+                    states.append(st)
+    return states
+
+
 def single_space(tier, phase):
     o = occurrences(phase)
     full = [o[k] for k in ("A", "T", "SUB", "D", "PT")]
@@ -391,6 +414,7 @@ def _perm_free_edges(state):
 
 
 TASK.edge_space = edge_space
+TASK.range_space = range_space
 TASK.edges = {
     "shift": {"apply": _shift_edges, "funcs": None, "keys": None, "cfgs": "all"},
     "permute": {"apply": _perm_edges, "funcs": None, "keys": None, "cfgs": "all"},
